@@ -147,11 +147,13 @@ public:
 
 	bool emptyQueue() const
 	{
+		EVENTPP_VERIF_POINT("queueList.empty");
 		return queueList.empty() && (queueEmptyCounter.load(std::memory_order_acquire) == 0);
 	}
 
 	void clearEvents()
 	{
+		EVENTPP_VERIF_POINT("queueList.empty");
 		if(! queueList.empty()) {
 			BufferedItemList tempList;
 
@@ -173,6 +175,7 @@ public:
 
 	bool process()
 	{
+		EVENTPP_VERIF_POINT("queueList.empty");
 		if(! queueList.empty()) {
 			BufferedItemList tempList;
 
@@ -203,6 +206,7 @@ public:
 
 	bool processOne()
 	{
+		EVENTPP_VERIF_POINT("queueList.empty");
 		if(! queueList.empty()) {
 			BufferedItemList tempList;
 
@@ -235,6 +239,7 @@ public:
 	template <typename F>
 	bool processIf(F && func)
 	{
+		EVENTPP_VERIF_POINT("queueList.empty");
 		if(queueList.empty()) {
 			return false;
 		}
@@ -442,6 +447,7 @@ private:
 	void doEnqueueItem(T && item)
 	{
 		BufferedItemList tempList;
+		EVENTPP_VERIF_POINT("freeList.empty");
 		if(! freeList.empty()) {
 			{
 				std::lock_guard<Mutex> queueListLock(freeListMutex);
